@@ -59,6 +59,11 @@ pub fn degenerate_inputs(rng: &mut Rng, k: usize, w: usize) -> Vec<Degenerate> {
     );
     add("mixture-empty-tail", vec![rec(0, &clean(rng, w + 10)), rec(1, b"NN"), rec(2, b""), rec(3, b"")]);
     add("short-then-long", vec![rec(0, &clean(rng, 2)), rec(1, &clean(rng, w * 2 + 7))]);
+    // a record dominated by a very long run of N (and an all-N record of that size)
+    let mut longn = clean(rng, w + 3);
+    longn.extend(std::iter::repeat(b'N').take(150_000));
+    longn.extend(clean(rng, w + 3));
+    add("long-N-run", vec![rec(0, &clean(rng, w + 1)), rec(1, &longn), rec(2, &vec![b'N'; 80_000])]);
     v
 }
 
